@@ -5,6 +5,7 @@
  * the server's tun, lets time pass, switches lazy mode, logs in raw.
  * ./lazy --prop C14|C16 --tier quick|thorough                    DESIGN.md 2, C14 / C16 */
 #include <ctype.h>
+#include <stddef.h>
 #include "harness_common.h"
 #include "vw.h"
 #include "explore.h"
@@ -20,7 +21,7 @@ IMG_SERVER(s)
 #include "downdec.h"
 
 static const char *PROP = "C14";
-static int is14, is16, thorough;
+static int is14, is15, is16, thorough;
 static const char *DOM = "t.example.com";
 static const char *PW = "sesame";
 static unsigned char pw32[33];
@@ -30,7 +31,7 @@ static const char *QTN[7] = { "NULL", "PRIVATE", "TXT", "SRV", "MX", "CNAME", "A
 enum { K_LETTERS, K_QUERIES, K_ANSWERS, K_DUPS, K_CACHE_EXPECTED, K_CACHE_SAME, K_POS_CHECKS, K_MAXPEND, K_TUNW, K_DATA_ANS, K_HELD2, K_SAN = 20 };
 
 /* ---------------------------------------------------------------- alphabet */
-enum { L_PING, L_DATA_FIRST, L_DATA_LAST, L_DUP, L_TUN, L_TIME, L_RAWLOGIN, L_LAZY };
+enum { L_PING, L_DATA_FIRST, L_DATA_LAST, L_DUP, L_TUN, L_TIME, L_RAWLOGIN, L_LAZY, L_SETFRAG };
 enum { V_SAME, V_NEWID, V_NEWSRC, V_UPPER };
 typedef struct letter { int kind, a, b; char name[40]; } letter;
 static letter LT[64]; static int nlt;
@@ -43,6 +44,19 @@ static void mk_alphabet(void)
 {
 	static const char *VN[] = { "same", "newid", "newsrc", "upper" };
 	static const int KS[] = { 0, 1, 2, 4 };
+	if (is15) {
+		/* C15: fragment-size requests at any point of a downstream transfer, acks that arrive or not */
+		static const int FS[] = { 200, 100, 50, 3, 2, 1, 0 };
+		addl(L_PING, 0, 0, "ping(ack)");
+		addl(L_PING, 1, 0, "ping(stale ack)");
+		addl(L_DATA_LAST, 0, 0, "data(last)");
+		addl(L_TUN, 60, 0, "tun(60B)");
+		addl(L_TUN, 260, 0, "tun(260B)");
+		for (int i = 0; i < 7; i++) addl(L_SETFRAG, FS[i], 0, "N(%d)", FS[i]);
+		addl(L_DUP, 0, V_NEWID, "redeliver(0 back,newid)");
+		addl(L_TIME, 1000, 0, "+1s");
+		return;
+	}
 	addl(L_PING, 0, 0, "ping");
 	addl(L_DATA_FIRST, 0, 0, "data(first,more)");
 	addl(L_DATA_LAST, 0, 0, "data(last)");
@@ -89,6 +103,9 @@ static void viol(const char *what, const char *fmt, ...)
 }
 static void on_san(const char *sig) { (void)sig; xp_count(K_SAN, 1); }
 
+#define FM_COUNT_FRAG() xp_count(K_DATA_ANS, 0)
+#include "fragmon.h"
+
 static struct tun_user *pristine;
 static int snap_regions(vw_region *out, int max, char *note)
 {
@@ -97,6 +114,7 @@ static int snap_regions(vw_region *out, int max, char *note)
 	unsigned mask = 0;
 	for (int i = 0; i < nu && n < max - 1; i++) if (us[i].active) { out[n].p = &us[i]; out[n].n = sizeof us[i]; n++; mask |= 1u << i; }
 	out[n].p = &M; out[n].n = sizeof M; n++;
+	if (is15) { out[n].p = &FST[1]; out[n].n = sizeof FST[1]; n++; }
 	memcpy(note, &mask, sizeof mask);
 	return n;
 }
@@ -113,6 +131,7 @@ static void note_query(const struct sockaddr_storage *src, const uint8_t *pkt, i
 	static rd_msg m; char err[128];
 	if (rd_parse(pkt, len, &m, err) || m.qr) return;
 	xp_count(K_QUERIES, 1);
+	if (is15) c15_on_query(&m, 1);
 	if (m.id == 0) return;                       /* ignored by design */
 	for (int i = 0; i < NPEND; i++) if (!M.pending[i].used) {
 		pend *p = &M.pending[i];
@@ -172,6 +191,7 @@ static void inspect_outputs(const char *lname)
 			continue;
 		}
 		M.pending[found].used = 0;
+		if (is15) c15_on_answer(&m, o->data, o->len, 1);
 		static uint8_t pl[70000];
 		int n = decode_downstream(&m, o->data, pl, sizeof pl);
 		/* data-path answers: header with the compression bit, remember acks and the answer-cache model */
@@ -215,7 +235,7 @@ static int apply(int li)
 	switch (L->kind) {
 	case L_PING:
 		if (M.cmc > 0x7f00) return 1;
-		plen = tm_ping(pkt, ++M.idseq, M.qt, 0, M.dn_seq, M.dn_frag, M.cmc++, DOM);
+		plen = L->a ? tm_ping(pkt, ++M.idseq, M.qt, 0, (M.dn_seq + 3) & 7, 13, M.cmc++, DOM) : tm_ping(pkt, ++M.idseq, M.qt, 0, M.dn_seq, M.dn_frag, M.cmc++, DOM);
 		remember(pkt, plen, 0);
 		send_q(&SRC_A, pkt, plen);
 		break;
@@ -288,6 +308,13 @@ static int apply(int li)
 		M.rawed = 1;
 		break;
 	}
+	case L_SETFRAG:
+		/* a fragment size beyond what one CNAME/A answer can carry (about 140 bytes) is a user misconfiguration: the answer
+		 * format silently truncates the fragment (see ea.c, exclude_oversized_fragsize); not part of the alphabet there */
+		if ((M.qt == 5 || M.qt == 1) && L->a > 100) return 1;
+		plen = tm_setfrag(pkt, ++M.idseq, M.qt, 0, L->a, M.cmc++, DOM);
+		send_q(&SRC_A, pkt, plen);
+		break;
 	case L_LAZY:
 		plen = tm_short(pkt, ++M.idseq, M.qt, 'o', tm_5to8(0), L->a ? 'l' : 'i', M.cmc++, DOM);
 		send_q(&SRC_A, pkt, plen);
@@ -333,6 +360,13 @@ static void key(uint64_t k[2])
 	h128_update(&h, &sub, sizeof sub);
 	ss_hash_users(&h, s_w_users(), s_w_created_users());
 	h128_update(&h, &M, sizeof M);
+	if (is15) {
+		fragstate *f = &FST[1];
+		h128_update(&h, f, offsetof(fragstate, lastfrag));
+		h128_update(&h, &f->lastlen, sizeof f->lastlen); h128_update(&h, &f->lastflag, sizeof f->lastflag);
+		if (f->lastlen > 0) h128_update(&h, f->lastfrag, f->lastlen > 4096 ? 4096 : f->lastlen);
+		if (f->total > 0) h128_update(&h, f->asm_, f->total > (int)sizeof f->asm_ ? (int)sizeof f->asm_ : f->total);
+	}
 	h128_final(&h, k);
 }
 static const char *lname(int l) { return LT[l].name; }
@@ -356,7 +390,7 @@ static void boot(int st)
 	IMG_REGISTER(s);
 	W.hooks.on_sanitizer = on_san;
 	W.hooks.snap_regions = snap_regions; W.hooks.snap_restored = snap_restored;
-	memset(&M, 0, sizeof M);
+	memset(&M, 0, sizeof M); memset(FST, 0, sizeof FST);
 	M.qt = QTYPES[st % 7]; M.cmc = 0x100; M.idseq = 0x200;
 	adv_boot(&c, 0, 0);
 	if (!pristine) pristine = malloc(sizeof *pristine * s_w_created_users());
@@ -405,7 +439,7 @@ int main(int argc, char **argv)
 		if (!strcmp(a.extra[i], "--prop") && i + 1 < a.nextra) PROP = a.extra[++i];
 		else if (!strcmp(a.extra[i], "--depth") && i + 1 < a.nextra) depth = atoi(a.extra[++i]);
 	}
-	is14 = !strcmp(PROP, "C14"); is16 = !strcmp(PROP, "C16"); thorough = a.thorough;
+	is14 = !strcmp(PROP, "C14"); is15 = !strcmp(PROP, "C15"); is16 = !strcmp(PROP, "C16"); thorough = a.thorough;
 	memset(pw32, 0, sizeof pw32); strcpy((char *)pw32, PW);
 	vw_mkaddr(&SRC_A, &SRCLEN, "198.51.100.7", 4000);
 	vw_mkaddr(&SRC_A2, &SRCLEN, "198.51.100.7", 4777);       /* a second relay port at the same address (passes the source check) */
